@@ -521,7 +521,12 @@ class tridonic(hid):
                 else:
                     self._log.debug("Bus watch waiting for data, no timeout")
                     await self._bus_watch_data_available.wait()
-                self._bus_watch_data_available.clear()
+            # Packets that were queued while we were not waiting (before
+            # this task was started, during initialisation) have set the
+            # event as well: forget that, or the next wait with timeout
+            # returns at once and a command is resolved as "no reply"
+            # before its reply or repeat had a chance to arrive
+            self._bus_watch_data_available.clear()
 
             # Figure out why we've woken up
             if len(self._bus_watch_data) == 0:
